@@ -1424,6 +1424,8 @@ def check_canon(fam, data, canon, flags):
         return check_f5(fam, data, canon, flags)
     if name == "F6":
         return check_f6(fam, data, canon, flags)
+    if name == "F8":
+        return check_f8(fam, data, canon, flags)
     return []
 
 
@@ -1500,6 +1502,21 @@ def family_tasks(prop, tier, root):
             canaries = {o["name"]: 90 for o in spec.get("outputs", []) if o.get("canary")}
             unit = {"label": "F7:%d" % idx, "source": spec["source"], "argv": argv, "must_inputs": [x.hex() for x in xs],
                     "family": {k: v for k, v in spec.items() if k != "source"}, "canaries": canaries}
+            tasks.append(("sim", root, idx, unit, plan))
+        # F8: key=value records, capacity-limited fields, out-of-space resync; appends sharing a transition with hooks
+        for j in range(n // 4):
+            idx = 580000 + j
+            rng = sched.rng_for(root, "family-F8", idx)
+            spec = gen_f8(rng)
+            xs = f8_inputs(rng, spec, 10)
+            ro = sched.rng_for(root, "family-options", idx)
+            f = {"indirect": True} if prop == "C10" else {}
+            if prop == "C03":
+                f["storage"] = idx % 4
+            f["O"] = ro.choice((3, 3, 3, 2, 1, 0))
+            argv = workload.sample_argv(ro, need=spec["need"], force=f)
+            unit = {"label": "F8:%d" % idx, "source": spec["source"], "argv": argv, "must_inputs": [x.hex() for x in xs],
+                    "family": {k: v for k, v in spec.items() if k != "source"}, "canaries": {"zc0": 90, "zc1": 90}}
             tasks.append(("sim", root, idx, unit, plan))
     return tasks
 
@@ -1682,4 +1699,199 @@ def f6_inputs(rng, spec, count):
             x = bytes(rng.choice(LET) for _ in range(n))
             res.append(x + (b";" if spec["variant"] == "plus" else b""))
     res.append(bytes(rng.choice(LET) for _ in range(min(cap, 3))) + b"!")
+    return res
+
+
+# =====================================================================================
+# F8 "kv": key=value records with capacity-limited fields, an out-of-space resync handler,
+# and appends that share their transition with hooks / counters (foreach do-actions)
+# =====================================================================================
+
+F8_PART = ("match", "fe-app", "fe-app-hook", "fe-hook-app", "fe-inc-app")
+
+
+def gen_f8(rng):
+    r = rng
+    ksz = r.choice((2, 3, 4, 6))
+    vsz = r.choice((2, 3, 5))
+    kun = r.random() < 0.25
+    vun = r.random() < 0.25
+    kpart = r.choice(F8_PART)
+    vpart = r.choice(F8_PART)
+    use_yield = r.random() < 0.4
+    handler = r.choice(("wait", "wait", "wait-del", "finish"))
+    term = r.choice((59, 10, 44))         # ; \n ,
+    spec = {"family": "F8", "kcap": ksz if kun else ksz - 1, "vcap": vsz if vun else vsz - 1, "kpart": kpart, "vpart": vpart,
+            "yield": use_yield, "handler": handler, "term": term, "pre": r.random() < 0.3}
+    L = ["out %sstr[%d] key;" % ("unterminated " if kun else "", ksz), "out int{size 1} zc0 = 90;",
+         "out %sstr[%d] val;" % ("unterminated " if vun else "", vsz), "out int{size 1} zc1 = 90;", "out int n0 = 0;",
+         "hook pair;", "hook kc;", "hook over;", "finishcode TOO;"]
+    if use_yield:
+        L.append("yieldcode YP;")
+
+    def part(kind, dest, cls):
+        if kind == "match":
+            return ["%s += /%s+/;" % (dest, cls)]
+        acts = {"fe-app": ["%s += [$last];" % dest], "fe-app-hook": ["%s += [$last];" % dest, "kc();"],
+                "fe-hook-app": ["kc();", "%s += [$last];" % dest], "fe-inc-app": ["n0 = [n0 + 1];", "%s += [$last];" % dest]}[kind]
+        return ["foreach {", "    /%s+/;" % cls, "} do {"] + ["    " + a for a in acts] + ["}"]
+
+    body = []
+    if spec["pre"]:
+        body.append('"+";')
+    body += part(kpart, "key", "[a-z]") + ['"=";'] + part(vpart, "val", "[0-9]") + [esc([term]) + ";", "pair();"]
+    if use_yield:
+        body.append("yield YP;")
+    body += ["delete key;", "delete val;"]
+    L += ["", "parser {", "    loop {", "        try {"] + ["            " + x for x in body] + ["        }", "        catch (outofspace) {", "            over();"]
+    if handler == "finish":
+        L.append("            finish TOO;")
+    else:
+        L.append("            wait %s;" % esc([term]))
+        if handler == "wait-del":
+            L += ["            delete key;", "            delete val;"]
+    L += ["        }", "    }", "}"]
+    spec["source"] = "\n".join(L) + "\n"
+    spec["need"] = ["-fyield-support"] if use_yield else []
+    spec["outputs"] = [{"name": "key", "type": "STR"}, {"name": "zc0", "type": "INT", "canary": True}, {"name": "val", "type": "STR"},
+                       {"name": "zc1", "type": "INT", "canary": True}, {"name": "n0", "type": "INT"}]
+    return spec
+
+
+def f8_model(spec, data):
+    """procedural reading; returns (events, terminal)"""
+    key, val = bytearray(), bytearray()
+    st = {"n0": 0}
+    ev = []
+    snap = lambda: "key=%d:%s;zc0=90;val=%d:%s;zc1=90;n0=%d" % (len(key), bytes(key).hex(), len(val), bytes(val).hex(), st["n0"])
+    emit = lambda kind, name, k, opt=False: ev.append({"kind": kind, "name": name, "k": k, "snap": snap(), "opt": opt, "taint": False})
+    term = spec["term"]
+    pos = 0
+    n = len(data)
+    mode = "start"          # start | pre | key | val | skip
+    keep_on_resync = spec["handler"] == "wait"
+
+    class Oos(Exception):
+        pass
+
+    def step(kind, dest, cap, b, k):
+        """one field byte: the do-actions (or the match append) of that byte, in program order"""
+        if kind == "match" or kind == "fe-app":
+            if len(dest) >= cap:
+                raise Oos()
+            dest.append(b)
+        elif kind == "fe-app-hook":
+            if len(dest) >= cap:
+                raise Oos()
+            dest.append(b)
+            emit("hook", "kc", k)
+        elif kind == "fe-hook-app":
+            emit("hook", "kc", k)
+            if len(dest) >= cap:
+                raise Oos()
+            dest.append(b)
+        elif kind == "fe-inc-app":
+            st["n0"] += 1
+            if len(dest) >= cap:
+                raise Oos()
+            dest.append(b)
+
+    terminal = None
+    mode = "pre" if spec["pre"] else "key0"
+    while pos < n:
+        b = data[pos]
+        try:
+            if mode == "pre":
+                if b != 43:
+                    terminal = ("FAIL", pos)
+                    break
+                pos += 1
+                mode = "key0"
+            elif mode in ("key0", "key"):
+                if 97 <= b <= 122:
+                    step(spec["kpart"], key, spec["kcap"], b, pos + 1)
+                    pos += 1
+                    mode = "key"
+                elif mode == "key" and b == 61:
+                    pos += 1
+                    mode = "val0"
+                else:
+                    terminal = ("FAIL", pos)
+                    break
+            elif mode in ("val0", "val"):
+                if 48 <= b <= 57:
+                    step(spec["vpart"], val, spec["vcap"], b, pos + 1)
+                    pos += 1
+                    mode = "val"
+                elif mode == "val" and b == term:
+                    pos += 1
+                    emit("hook", "pair", pos)
+                    if spec["yield"]:
+                        emit("yield", "YP", pos)
+                    del key[:]
+                    del val[:]
+                    mode = "pre" if spec["pre"] else "key0"
+                else:
+                    terminal = ("FAIL", pos)
+                    break
+            elif mode == "skip":
+                pos += 1
+                if b == term:
+                    if spec["handler"] == "wait-del":
+                        del key[:]
+                        del val[:]
+                    mode = "pre" if spec["pre"] else "key0"
+        except Oos:
+            # the byte that does not fit is not consumed by the try body; the handler starts with it
+            emit("hook", "over", pos)
+            if spec["handler"] == "finish":
+                terminal = ("FINISH_TOO", pos)
+                break
+            mode = "skip"
+    return ev, terminal
+
+
+def check_f8(spec, data, canon, flags):
+    ev, terminal = f8_model(spec, data)
+    out, obs = compare_model_trace(ev, terminal, False, canon, data, flags, "F8")
+    if out or getattr(canon, "coarse", False):
+        return out
+    # capacities at every step
+    for st in canon.steps:
+        for name, cap in (("key", spec["kcap"]), ("val", spec["vcap"])):
+            mm = [x for x in st.snap.split(";") if x.startswith(name + "=")]
+            if mm and int(mm[0].split("=")[1].split(":")[0]) > cap:
+                out.append(oracles.V("F8", "capacity-exceeded", -1, 0, "%s holds more than %d bytes: %s" % (name, cap, mm[0])))
+                return out
+    return out
+
+
+def f8_inputs(rng, spec, count):
+    term = bytes([spec["term"]])
+    pre = b"+" if spec["pre"] else b""
+
+    def rec(klen, vlen):
+        return pre + bytes(rng.choice(LET) for _ in range(klen)) + b"=" + bytes(rng.choice(DIG) for _ in range(vlen)) + term
+    kc, vc = spec["kcap"], spec["vcap"]
+    res = []
+    for k in range(count):
+        recs = []
+        for _ in range(rng.choice((1, 2, 3, 4))):
+            kind = rng.random()
+            if kind < 0.35:
+                recs.append(rec(rng.randint(1, max(1, kc)), rng.randint(1, max(1, vc))))
+            elif kind < 0.6:
+                recs.append(rec(kc + rng.choice((1, 1, 2, 4)), rng.randint(1, max(1, vc))))      # key overflows (by exactly one: the
+            elif kind < 0.85:                                                                  # byte after it is the separator)
+                recs.append(rec(rng.randint(1, max(1, kc)), vc + rng.choice((1, 1, 2, 3))))
+            else:
+                recs.append(rec(kc, vc))
+        x = b"".join(recs)
+        r = rng.random()
+        if r < 0.15 and x:
+            x = x[:rng.randrange(len(x) + 1)]
+        elif r < 0.3 and x:
+            i = rng.randrange(len(x))
+            x = x[:i] + bytes([rng.choice(LET + PUN + DIG)]) + x[i + 1:]
+        res.append(x[:96])
     return res
